@@ -62,16 +62,23 @@ example : Valid exG := by
   refine ⟨by decide, by decide, by decide, by decide, by decide, by decide, ?_⟩
   exact acyclic_of_cyclic_false (by decide)
 
-example : diagnose exG = .ok () := by decide
+/-- the verdict as a comparable value -/
+def verdict (g : CommGraph) : Option Diag :=
+  match diagnose g with
+  | .ok _ => none
+  | .error d => some d
+
+example : verdict exG = none := by decide
 
 /-- closing the cycle (the first payload now depends on the answer) is not valid -/
 def exBad : CommGraph :=
   { sends := [⟨0, 1, 7, [(1, 8)]⟩, ⟨1, 0, 8, [(0, 7)]⟩], recvs := [⟨1, 0, 7⟩, ⟨0, 1, 8⟩] }
 
+example : verdict exBad = some .cycle := by decide
 example : ¬ Valid exBad := fun h => by
-  have := diagnose_sound h
-  revert this; decide
-example : diagnose exBad = .error .cycle := by decide
+  have h1 := diagnose_sound h
+  have h2 : verdict exBad = some .cycle := by decide
+  simp [verdict, h1] at h2
 example : DepPath exBad ⟨0, 1, 7⟩ ⟨0, 1, 7⟩ :=
   .more (d := ⟨1, 0, 8⟩) (by decide) (.one (by decide))
 
